@@ -101,6 +101,28 @@ pub fn c16(ctx: &Ctx) -> (CheckMeta, Outcome) {
             malformed.push(format!("{}{}", n, p));
         }
     }
+    // junk around a valid text: the NAME part is then not a code name
+    let valid = ["Unary", "Gamma", "Delta", "Omega", "VByteLe", "VByteBe", "Zeta(3)", "Pi(2)", "Golomb(7)", "ExpGolomb(4)", "Rice(5)"];
+    for t in valid {
+        for pre in ["x", " ", "::", "Foo::", "Codes::", "Golomb::", "-", "0", "(", "é", "\u{3b3}"] {
+            malformed.push(format!("{}{}", pre, t));
+        }
+        let (name, rest) = match t.find('(') {
+            Some(i) => (&t[..i], &t[i..]),
+            None => (t, ""),
+        };
+        for suf in ["x", " ", "_", "é", "1"] {
+            malformed.push(format!("{}{}{}", name, suf, rest));
+        }
+    }
+    // long and non-ASCII texts (error paths that quote the input must not panic)
+    for n in [31usize, 32, 33, 40, 64, 200] {
+        malformed.push("x".repeat(n));
+        malformed.push(format!("x{}", "é".repeat(n / 2)));
+        malformed.push(format!("{}(3)", "é".repeat(n / 2)));
+        malformed.push(format!("Zeta({})", "é".repeat(n / 2)));
+        malformed.push(format!("{}\u{1F600}", "y".repeat(n - 1)));
+    }
     for s in &malformed {
         out.cov.evaluations += 1;
         out.cov.nontrivial += 1;
@@ -175,7 +197,7 @@ fn c16_meta() -> CheckMeta {
     CheckMeta {
         property: "C16".into(),
         level: "exploration".into(),
-        rule: "complete enumeration: (1) every Codes variant x parameter 0..=64, 1000, 65536, 2^31, usize::MAX: parse(to_string(c)) is structurally c (Debug); (2) a grammar of malformed texts (13 non-names x {none,(3),(),(x)}; 5 parametric names x {missing, (), (x), (-1), (1.5), overflowing, (0x10)}) must be Err, never a code, never a panic; (3) identifiers 0..=50 map to a code that maps back to the same identifier, 51..=80, 2^20, usize::MAX are Err; (4) to_code_const then from_code_const gives identical codewords (14-value grid, both endiannesses) for every variant with parameter 0..=16; (5) all pairs of those codes that compare == but are structurally different write identical bytes; non-trivial = parametric or malformed case".into(),
+        rule: "complete enumeration: (1) every Codes variant x parameter 0..=64, 1000, 65536, 2^31, usize::MAX: parse(to_string(c)) is structurally c (Debug); (2) a grammar of malformed texts (13 non-names x {none,(3),(),(x)}; 5 parametric names x {missing, (), (x), (-1), (1.5), overflowing, (0x10)}; every valid text with 11 prefixes (x, space, ::, Foo::, Codes::, ...) and its name with 5 suffixes; long (31..200 bytes) and non-ASCII texts) must be Err, never a code, never a panic; (3) identifiers 0..=50 map to a code that maps back to the same identifier, 51..=80, 2^20, usize::MAX are Err; (4) to_code_const then from_code_const gives identical codewords (14-value grid, both endiannesses) for every variant with parameter 0..=16; (5) all pairs of those codes that compare == but are structurally different write identical bytes; non-trivial = parametric or malformed case".into(),
         assumptions: vec!["trailing text after a valid parameter and a parameter on a parameterless name are not constrained (the property does not mention them)".into()],
     }
 }
@@ -271,6 +293,48 @@ pub fn c17(ctx: &Ctx) -> (CheckMeta, Outcome) {
         zigzag_check!(u64, i64, windows!(i64, u64, 64, half), out, "i64");
         out
     }));
+    // values with two set bits (+-2) and limb-boundary patterns: carries/borrows between 64-bit halves
+    tasks.push(Box::new(move || {
+        let mut out = Outcome::new();
+        out.cov.configs.insert("i128/u128 (two-bit sums, limb patterns)".into());
+        let mut v: Vec<i128> = vec![];
+        for a in 0..128u32 {
+            for b in 0..=a {
+                for d in -2i128..=2 {
+                    let x = (1u128 << a).wrapping_add(1u128 << b).wrapping_add(d as u128);
+                    v.push(x as i128);
+                    v.push((x as i128).wrapping_neg());
+                    v.push(!(x as i128));
+                }
+            }
+        }
+        let lows: [u64; 10] = [0, 1, 2, (1 << 63) - 1, 1 << 63, (1 << 63) + 1, u64::MAX - 1, u64::MAX, 0x5555_5555_5555_5555, 0xAAAA_AAAA_AAAA_AAAA];
+        let highs: [u64; 14] = [0, 1, 2, 3, 4, 5, 0x7FFF_FFFF_FFFF_FFFE, 0x7FFF_FFFF_FFFF_FFFF, 1 << 63, (1 << 63) + 1, u64::MAX - 2, u64::MAX - 1, u64::MAX, 0x1234_5678_9ABC_DEF0];
+        for h in highs {
+            for l in lows {
+                v.push((((h as u128) << 64) | l as u128) as i128);
+            }
+        }
+        zigzag_check!(u128, i128, v, out, "i128");
+        let mut v64: Vec<i64> = vec![];
+        for a in 0..64u32 {
+            for b in 0..=a {
+                for d in -2i64..=2 {
+                    let x = (1u64 << a).wrapping_add(1u64 << b).wrapping_add(d as u64);
+                    v64.push(x as i64);
+                    v64.push((x as i64).wrapping_neg());
+                }
+            }
+        }
+        for h in [0u32, 1, 2, 3, 0x7FFF_FFFF, 0x8000_0000, 0x8000_0001, u32::MAX - 1, u32::MAX] {
+            for l in [0u32, 1, 0x7FFF_FFFF, 0x8000_0000, u32::MAX - 1, u32::MAX] {
+                v64.push((((h as u64) << 32) | l as u64) as i64);
+            }
+        }
+        zigzag_check!(u64, i64, v64.clone(), out, "i64");
+        zigzag_check!(usize, isize, v64.into_iter().map(|x| x as isize), out, "isize");
+        out
+    }));
     tasks.push(Box::new(move || {
         let mut out = Outcome::new();
         out.cov.configs.insert("i128/u128".into());
@@ -289,7 +353,7 @@ pub fn c17(ctx: &Ctx) -> (CheckMeta, Outcome) {
     let meta = CheckMeta {
         property: "C17".into(),
         level: "exploration".into(),
-        rule: "complete enumeration of i8/u8, i16/u16 and i32/u32 (all 2^32 values); for 64, 128 bits and pointer size every bit pattern within 2^16 (thorough 2^20) of 0, MIN, MAX, all-ones and of every power of two; oracle: the closed formulas (x >= 0 -> 2x, x < 0 -> 2*(!x)+1 = -2x-1; n even -> n/2, n odd -> !(n/2)) and mutual inversion in both directions; non-trivial = negative or > 100".into(),
+        rule: "complete enumeration of i8/u8, i16/u16 and i32/u32 (all 2^32 values); for 64, 128 bits and pointer size every bit pattern within 2^16 (thorough 2^20) of 0, MIN, MAX, all-ones and of every power of two, plus every value with two set bits +-2 (and its negation / complement) and 140 limb-boundary patterns (low/high 64-bit halves from {0,1,2,2^63-1,2^63,2^63+1,2^64-2,2^64-1,...}); oracle: the closed formulas (x >= 0 -> 2x, x < 0 -> 2*(!x)+1 = -2x-1; n even -> n/2, n odd -> !(n/2)) and mutual inversion in both directions; non-trivial = negative or > 100".into(),
         assumptions: vec![],
     };
     (meta, out)
@@ -866,8 +930,22 @@ pub fn c20(ctx: &Ctx) -> (CheckMeta, Outcome) {
             out.cov.configs.insert("synthetic-steps".into());
             // steps: subsets {a} ∪ {b} ∪ {c} with a < b < c indexes; index g = "no step"
             let mut run = |steps: Vec<u64>, out: &mut Outcome| {
+              // two value maps: small values, and the same with the highest level = usize::MAX
+              // (a legal value of a non-decreasing function u64 -> usize)
+              for top_max in [false, true] {
+                if top_max && steps.is_empty() {
+                    continue;
+                }
                 let st = steps.clone();
-                let f = move |x: u64| -> usize { 3 + st.iter().filter(|&&p| x >= p).count() * 2 };
+                let nsteps = steps.len();
+                let f = move |x: u64| -> usize {
+                    let lvl = st.iter().filter(|&&p| x >= p).count();
+                    if top_max && lvl == nsteps {
+                        usize::MAX
+                    } else {
+                        3 + lvl * 2
+                    }
+                };
                 out.cov.evaluations += 1;
                 if !steps.is_empty() {
                     out.cov.nontrivial += 1;
@@ -876,17 +954,18 @@ pub fn c20(ctx: &Ctx) -> (CheckMeta, Outcome) {
                     Ok(items) => {
                         if let Err(d) = judge_points(&items, &f, Some(&steps)) {
                             if out.violations.len() < 10 {
-                                out.violations.push(v("C20", "find-change", "synthetic".into(), "next", "value", format!("steps at {:?}: {}", steps, d), json!({"kind": "steps", "steps": steps})));
+                                out.violations.push(v("C20", "find-change", "synthetic".into(), "next", "value", format!("steps at {:?}{}: {}", steps, if top_max { " (top value usize::MAX)" } else { "" }, d), json!({"kind": "steps", "steps": steps, "top_max": top_max})));
                             }
                         }
                     }
                     Err(d) => {
                         let sym = if d.starts_with("panic") { "panic" } else { "hang" };
                         if out.violations.len() < 10 {
-                            out.violations.push(v("C20", "find-change", "synthetic".into(), "next", sym, format!("steps at {:?}: {}", steps, d), json!({"kind": "steps", "steps": steps})));
+                            out.violations.push(v("C20", "find-change", "synthetic".into(), "next", sym, format!("steps at {:?}{}: {}", steps, if top_max { " (top value usize::MAX)" } else { "" }, d), json!({"kind": "steps", "steps": steps, "top_max": top_max})));
                         }
                     }
                 }
+              }
             };
             if a == g {
                 run(vec![], &mut out); // the constant function
@@ -918,7 +997,7 @@ pub fn c20(ctx: &Ctx) -> (CheckMeta, Outcome) {
     let meta = CheckMeta {
         property: "C20".into(),
         level: "exploration".into(),
-        rule: "(1) every library length function (unary, gamma, delta, omega, vbyte, zeta/pi/rice/exp-golomb with parameters 0..=16, 31, 63, golomb 1..=64 and six larger moduli): len(v) <= len(v+1) for all v below 2^20 (thorough 2^21) and within 2^10 of every power of two; Kraft sum of the dense prefix in exact arithmetic (numerator over 2^(2^21)) must not exceed 1; (2) FindChangePoints on each of those functions, driven through a closure with a 200 000-call budget: first item (0, f(0)), strictly increasing, every item a true change point with the new value, none of the true change points of the dense prefix missed, iteration ends; (3) get_implied_distribution terminates for each code and its probabilities are 2^-len x run length, and sample_implied_distribution can be set up (seeded rng) and yields 16 values whose codewords are at most 128 bits; (4) ALL synthetic non-decreasing step functions with at most 5 (thorough: 6) steps at positions from a 39-point grid (1..9, around 2^7, 2^16, 2^20, 2^31..2^33, 2^47, 2^62, 2^63 +-1, beyond 2^63, 2^64-2), including the constant function: same oracle, every step <= 2^63 must be reported; non-trivial = value at which a length steps / function with at least one step".into(),
+        rule: "(1) every library length function (unary, gamma, delta, omega, vbyte, zeta/pi/rice/exp-golomb with parameters 0..=16, 31, 63, golomb 1..=64 and six larger moduli): len(v) <= len(v+1) for all v below 2^20 (thorough 2^21) and within 2^10 of every power of two; Kraft sum of the dense prefix in exact arithmetic (numerator over 2^(2^21)) must not exceed 1; (2) FindChangePoints on each of those functions, driven through a closure with a 200 000-call budget: first item (0, f(0)), strictly increasing, every item a true change point with the new value, none of the true change points of the dense prefix missed, iteration ends; (3) get_implied_distribution terminates for each code and its probabilities are 2^-len x run length, and sample_implied_distribution can be set up (seeded rng) and yields 16 values whose codewords are at most 128 bits; (4) ALL synthetic non-decreasing step functions with at most 5 (thorough: 6) steps at positions from a 39-point grid (1..9, around 2^7, 2^16, 2^20, 2^31..2^33, 2^47, 2^62, 2^63 +-1, beyond 2^63, 2^64-2), including the constant function, each with small values and with usize::MAX as its highest value: same oracle, every step <= 2^63 must be reported; non-trivial = value at which a length steps / function with at least one step".into(),
         assumptions: vec!["Kraft terms below 2^-(2^21) are ignored (only possible for unary-like codes beyond the dense prefix)".into()],
     };
     (meta, out)
